@@ -61,9 +61,11 @@ T parsePlugin(const Json::Value& plugin) {
 
   for (const auto& key : json_args.getMemberNames()) {
     const auto& value = json_args[key];
-    // Value has to be a string, number, or bool
+    // Value has to be a string, number, or bool. Anything else makes the whole
+    // plugin unusable (like a missing name does): returning what was collected
+    // so far would silently drop this argument and all the ones after it.
     if (!value.isString() && !value.isNumeric() && !value.isBool()) {
-      return ret;
+      return {};
     }
     ret.args[key] = value.asString();
   }
